@@ -12,9 +12,11 @@ cancelled (in the sense of `C04_effectively_cancelled_iff`), lies in the subtree
 shielded scope between itself and `o`; hence a task whose scope is not effectively cancelled is
 left untouched by every delivery.
 
-Lemmas: `Kernel/DeliverInv.lean` .. `DeliverInv7.lean`.
+Lemmas: `Kernel/DeliverInv.lean` .. `DeliverInv7.lean`; for the versions over `Reach` that do not
+assume `cancelCalled o` (a scheduled `deliver o` callback implies it): `DeliverInv8.lean` .. `10`.
 -/
 import AnyioModel.Kernel.DeliverInv7
+import AnyioModel.Kernel.DeliverInv10
 import AnyioModel.Props.C04pure
 
 namespace AnyioModel.Kernel
@@ -105,6 +107,58 @@ theorem C04_deliver_contained_step {st st' : State} {o t c : Nat} {out : Out} (h
         (fun _ => rfl)]; exact he
     exact (C04_deliver_contained w1 b1 (c := c) hc hsc he').2.2
 
+/-! ### over `Reach`, without assuming that the origin is cancelled -/
+
+/-- **C04_deliver_handle_cancelled.**  In every reachable state a scheduled `deliver o` callback
+belongs to a scope on which `cancel()` was called; in particular the callback the loop runs. -/
+theorem C04_deliver_handle_cancelled {st st' : State} {o : Nat} {out : Out} (hr : Reach st)
+    (hs : step st (.run (.deliver o)) = some (st', out)) : (st.scopes o).cancelCalled = true := by
+  have hm : Handle.deliver o ∈ st.cur := by
+    simp only [step] at hs
+    split at hs
+    · contradiction
+    · rename_i hg
+      exact Classical.byContradiction (fun hx => hg (.inr hx))
+  exact (dbn_reach hr).1 o (List.mem_append_right _ hm)
+
+/-- **C04_deliver_step_sound.**  In every reachable state, whenever the loop runs a delivery
+callback, every task whose record changes (state, `_must_cancel`, `cancelling()`, ...) sits in a
+scope — its current scope — that is effectively cancelled. -/
+theorem C04_deliver_step_sound {st st' : State} {o : Nat} {out : Out} (hr : Reach st)
+    (hs : step st (.run (.deliver o)) = some (st', out)) (t : Nat)
+    (hne : st'.tasks t ≠ st.tasks t) :
+    ∃ c, (st.tasks t).scope = some c ∧ t ∈ (st.scopes c).tasks ∧ effCancelled st c = true := by
+  have w := wf_reach hr
+  have d := di_reach hr
+  have hc := C04_deliver_handle_cancelled hr hs
+  have hh : hitSet st o t := by
+    apply Classical.byContradiction
+    intro hn
+    apply hne
+    simp only [step] at hs
+    split at hs
+    · contradiction
+    · simp only [Option.some.injEq, Prod.mk.injEq] at hs
+      obtain ⟨rfl, _⟩ := hs
+      have w1 : WF { st with cur := st.cur.erase (.deliver o) } :=
+        wf_shrinkCur w _ (fun y hy => List.mem_of_mem_erase hy)
+      have b1 : BW { st with cur := st.cur.erase (.deliver o) } := d.bw
+      exact (deliver_task w1.tree b1 o t).2 (fun hh => hn
+        (hitSet_congr (a := { st with cur := st.cur.erase (.deliver o) }) (b := st) rfl rfl rfl hh))
+  exact C04_deliver_sound w hc hh
+
+/-- **C04_deliver_contained_reach.**  `C04_deliver_contained_step` without the hypothesis on the
+origin: in every reachable state no delivery callback touches a task whose current scope is not
+effectively cancelled, nor a task that has no current scope. -/
+theorem C04_deliver_contained_reach {st st' : State} {o t : Nat} {out : Out} (hr : Reach st)
+    (hs : step st (.run (.deliver o)) = some (st', out))
+    (he : ∀ c, (st.tasks t).scope = some c → effCancelled st c = false) :
+    st'.tasks t = st.tasks t := by
+  apply Classical.byContradiction
+  intro hne
+  obtain ⟨c, h1, _, h3⟩ := C04_deliver_step_sound hr hs t hne
+  rw [he c h1] at h3; cases h3
+
 /-! ### non-vacuity -/
 
 /-- Group scope 0 cancelled while it holds a child (task 1, not started) and its host (task 0) sits
@@ -137,5 +191,24 @@ example :
       (fun st => ((st.tasks 1).mustCancel, (st.tasks 1).nAnyio, (st.tasks 0).mustCancel,
         (st.tasks 0).nAnyio)) =
       some (false, 0, true, 1) := by decide
+
+/-- `C04_deliver_step_sound`: the delivery of scope 0 changes the record of the host of the inner
+scope 1 (task 0: `_must_cancel`), whose current scope is effectively cancelled, and of nobody else:
+task 1, spawned into a group that was entered before scope 0 and is not below it, is untouched. -/
+example :
+    (runFrom step init
+      [.mkGroup, .groupEnter 0, .spawn 0, .mkScope false none, .enter 2, .mkScope false none,
+       .enter 3, .cancel 2, .yield, .beginCycle 0, .run (.step 1), .yield]).map
+      (fun st => ((st.tasks 0).scope, effCancelled st 3, (st.tasks 1).scope, effCancelled st 1,
+        st.cur)) =
+      some (some 3, true, some 1, false, [.deliver 2, .step 0]) := by decide
+
+example :
+    (runFrom step init
+      [.mkGroup, .groupEnter 0, .spawn 0, .mkScope false none, .enter 2, .mkScope false none,
+       .enter 3, .cancel 2, .yield, .beginCycle 0, .run (.step 1), .yield, .run (.deliver 2)]).map
+      (fun st => ((st.tasks 0).mustCancel, (st.tasks 0).nAnyio, (st.tasks 1).mustCancel,
+        (st.tasks 1).nAnyio, (st.scopes 2).cancelCalled)) =
+      some (true, 1, false, 0, true) := by decide
 
 end AnyioModel.Kernel
